@@ -40,6 +40,18 @@ class SymName:
         return f"SymName({self.tok})"
 
 
+class SymStr:
+    """an abstract string: a sequence of literal pieces and formatted symbolic values (never inspected)"""
+
+    _symstr = True
+
+    def __init__(self, parts):
+        self.parts = list(parts)
+
+    def __repr__(self):
+        return f"SymStr({self.parts})"
+
+
 class SymRange:
     def __init__(self, n):
         self.n = n
@@ -74,6 +86,8 @@ class World:
         self.overrides = {}
         self._lift_cache = {}
         self._hint_cache = {}
+        self._term_cache = {}
+        self._keep = []
         self.assumed_used = set()
         self.transparent_used = set()
         self.contracts_used = set()
@@ -142,7 +156,8 @@ class World:
         if isinstance(v, zoneinfo.ZoneInfo):
             if v.key in ("UTC", "Etc/UTC"):
                 return Obj(type(v), oid=oid, key=v.key, T=(), o=(0,), **pyattrs)
-            raise Unsupported(f"concrete zone {v.key} in source")
+            # a concrete zone: answered by the real object (native evaluation of contracts, replay)
+            return Obj(type(v), oid=oid, key=v.key, native=v, **pyattrs)
         if isinstance(v, _dt.tzinfo) and hasattr(v, "_offset"):
             return Obj(type(v), oid=oid, **pyattrs)
         if isinstance(v, _dt.timezone):
@@ -158,27 +173,31 @@ class World:
 
     # ------------------------------------------------------------------ solver hints
     def hints_for(self, formulas):
+        """Gregorian decomposition hints for every term that occurs under div/mod by 4, 100 or 400"""
         terms = {}
+        cache = self._term_cache
 
-        def walk(e):
-            if not z3.is_app(e):
-                return
+        def collect(e):
+            """ids of year-like terms under e (memoised per sub-formula)"""
             key = e.get_id()
-            if key in seen:
-                return
-            seen.add(key)
-            k = e.decl().kind()
-            if k in (z3.Z3_OP_IDIV, z3.Z3_OP_MOD) and z3.is_int_value(e.arg(1)) and e.arg(1).as_long() in (4, 100, 400):
-                if not z3.is_int_value(e.arg(0)):
-                    t = e.arg(0)
-                    terms[t.get_id()] = t
-            for c in e.children():
-                walk(c)
+            if key in cache:
+                return cache[key]
+            found = {}
+            if z3.is_app(e):
+                k = e.decl().kind()
+                if k in (z3.Z3_OP_IDIV, z3.Z3_OP_MOD) and z3.is_int_value(e.arg(1)) and e.arg(1).as_long() in (4, 100, 400):
+                    if not z3.is_int_value(e.arg(0)):
+                        t = e.arg(0)
+                        found[t.get_id()] = t
+                for c in e.children():
+                    found.update(collect(c))
+            cache[key] = found
+            self._keep.append(e)
+            return found
 
-        seen = set()
         for f in formulas:
             if is_sym(f):
-                walk(f)
+                terms.update(collect(f))
         hints = []
         for tid, t in terms.items():
             if tid not in self._hint_cache:
@@ -753,10 +772,19 @@ class World:
         pass
 
     def sym_format(self, x, fv):
-        raise Unsupported("symbolic value in f-string")
+        spec_ = ""
+        if fv is not None and getattr(fv, "format_spec", None) is not None:
+            spec_ = "".join(c.value for c in fv.format_spec.values if isinstance(c, ast.Constant))
+        return SymStr([("fmt", x, spec_)])
 
     def sym_concat(self, parts):
-        raise Unsupported("symbolic string concatenation")
+        out = []
+        for p in parts:
+            if isinstance(p, SymStr):
+                out.extend(p.parts)
+            else:
+                out.append(p)
+        return SymStr(out)
 
     def symstr_compare(self, op, a, b, line):
         if isinstance(a, SymName) and isinstance(b, SymName):
